@@ -71,6 +71,13 @@ UPrograms(s) == UNION {{<<Op("map", f, "", "", 0)>>, <<Op("map", f, "", "", 0), 
                         <<Op("map", f, "", "", 0), Op("map", "par2", "", "", 0)>>} : f \in {"par1", "def1"}}
 UnionCases == UNION {{[kind |-> "names", start |-> s, p |-> p, q |-> q, union |-> u] :
                         p \in UPrograms(s), q \in UPrograms(s), u \in {"from_actions", "add", "iadd"}} : s \in {"Y", "A"}}
+\* (U') unions of two programs that differ ONLY in a callable whose __name__ is the same (two defs called f, two lambdas): the
+\*      names collide (recorded finding), but the union must still hold both computations
+UShape(k, f, s) == IF k = 1 THEN <<Op("map", f, "", "", 0)>>
+                   ELSE IF k = 2 THEN <<Op("map", f, "", "", 0), Op("sum", "", "", IF s = "Y" THEN "y" ELSE "x", 0)>>
+                   ELSE <<Op("map", f, "", "", 0), Op("map", "par2", "", "", 0)>>
+TwinCases == {[kind |-> "names", start |-> s, p |-> UShape(k, fs[1], s), q |-> UShape(k, fs[2], s), union |-> u] :
+                 s \in {"Y", "A", "S1"}, k \in 1..3, fs \in {<<"def1", "def2">>, <<"lam1", "lam2">>}, u \in {"from_actions", "add", "iadd"}}
 \* (V) the same sub-expression twice inside ONE action -- a.map(f).add(a.map(f)) ("dup_add"); (a - mean(a)) / std(a) with batched
 \*     mean and std over E, which both build the batched sum ("norm") -- made into a Cascade from that single action ("single"),
 \*     or united with its source: in the Cascade's graph one name is one node
@@ -126,21 +133,39 @@ TwiceCases == {[kind |-> "operands", start |-> s, p |-> <<From(s), Op(k1, "", ""
 \* arguments and its name: consumers of two different sources are different computations.  Pure forgets the source names: it is
 \* what de-duplication (which may merge sources with equal payloads) has to preserve.
 NodeOf(L, id) == CHOOSE n \in SetOf(L) : n.id = id
-RECURSIVE Term(_, _), Pure(_, _)
+RECURSIVE Term(_, _), Pure(_, _), TermN(_, _), Fns(_, _)
 Term(L, n) == <<n.fid, n.args, n.kwargs, IF n.ins = <<>> THEN n.name ELSE "", {<<i[1], Term(L, NodeOf(L, i[2])), i[3]>> : i \in SetOf(n.ins)}>>
 Pure(L, n) == <<n.fid, n.args, n.kwargs, {<<i[1], Pure(L, NodeOf(L, i[2])), i[3]>> : i \in SetOf(n.ins)}>>
-Den(L, n) == [name |-> n.name, fname |-> n.fname, fid |-> n.fid, args |-> n.args, kwargs |-> n.kwargs, term |-> Term(L, n)]
-Dens(L) == {Den(L, n) : n \in SetOf(L)}
-CollisionKind(a, b) == IF a.fid # b.fid THEN (IF a.fname = "<lambda>" THEN "different_lambdas" ELSE "different_callables_with_equal_name")
-                       ELSE IF a.args # b.args \/ a.kwargs # b.kwargs THEN "different_static_arguments" ELSE "different_inputs"
+\* the same term with every callable replaced by its __name__, and the callables (name, identity) that occur in it: two terms
+\* that differ although their TermN are equal differ only in callables that share a name, possibly further up (a collision of
+\* two parents makes their consumers collide too: the same finding, not a new kind)
+TermN(L, n) == <<n.fname, n.args, n.kwargs, IF n.ins = <<>> THEN n.name ELSE "", {<<i[1], TermN(L, NodeOf(L, i[2])), i[3]>> : i \in SetOf(n.ins)}>>
+Fns(L, n) == {<<n.fname, n.fid>>} \cup UNION {Fns(L, NodeOf(L, i[2])) : i \in SetOf(n.ins)}
+\* light: what NameInjective needs; Den: what naming the kind of a collision needs (computed for colliding names only)
+Light(L) == {<<n.name, Term(L, n)>> : n \in SetOf(L)}
+Den(L, n) == [name |-> n.name, fname |-> n.fname, fid |-> n.fid, args |-> n.args, kwargs |-> n.kwargs, term |-> Term(L, n),
+              termN |-> TermN(L, n), fns |-> Fns(L, n)]
+DensOf(L, names) == {Den(L, n) : n \in {n \in SetOf(L) : n.name \in names}}
+CollisionKind(a, b) ==
+  IF a.termN = b.termN
+  THEN (IF \E f \in (a.fns \ b.fns) \cup (b.fns \ a.fns) : f[1] = "<lambda>" THEN "different_lambdas" ELSE "different_callables_with_equal_name")
+  ELSE IF a.fid # b.fid THEN (IF a.fname = "<lambda>" THEN "different_lambdas" ELSE "different_callables_with_equal_name")
+  ELSE IF a.args # b.args \/ a.kwargs # b.kwargs THEN "different_static_arguments" ELSE "different_inputs"
 Post(c, r) ==
-  LET ds == Dens(r.nodes)
+  LET lt == Light(r.nodes)
+      amb == {a[1] : a \in {a \in lt : \E b \in lt : a[1] = b[1] /\ a[2] # b[2]}}
+      ds == DensOf(r.nodes, amb)
       clashes == {<<a, b>> \in ds \X ds : a.name = b.name /\ a.term # b.term}
   IN  {"NameInjective:" \o CollisionKind(x[1], x[2]) : x \in clashes}
  \cup (IF r.build1 = r.build2 THEN {} ELSE {"Deterministic"})
  \cup {"OperandsIntact:" \o r.steps[k].op : k \in {k \in DOMAIN r.steps : r.steps[k].before # r.steps[k].after}}
- \cup (IF "union" \in DOMAIN c /\ Cardinality(SetOf(r.uninames)) # Len(r.uninames) THEN {"NameInjective:one_name_on_two_nodes_of_a_cascade"} ELSE {})
- \* a union keeps every computation of the united actions, and every name in it still stands for the computation it was given to
+ \* in a Cascade's graph a computation is ONE node: no two node objects (of one build) with the same name and the same
+ \* computation (two DIFFERENT computations under one name are the NameInjective collisions above, not this clause)
+ \cup (IF "union" \in DOMAIN c /\ \E a, b \in SetOf(r.uni) : /\ a.id # b.id /\ a.id \div 100000 = b.id \div 100000
+                                                            /\ a.name = b.name /\ Pure(r.uni, a) = Pure(r.uni, b)
+       THEN {"NameInjective:one_name_on_two_nodes_of_a_cascade"} ELSE {})
+ \* a union keeps every computation of the united actions (as many distinct computations after as before, whether or not
+ \* their names collide), and every name in it still stands for a computation it was given to
  \cup (IF "union" \in DOMAIN c
        THEN LET P == {<<n.name, Pure(r.pre, n)>> : n \in SetOf(r.pre)}
                 U == {<<n.name, Pure(r.uni, n)>> : n \in SetOf(r.uni)}
@@ -150,19 +175,20 @@ Post(c, r) ==
  \cup (IF c.kind # "operands" /\ Len(r.steps) # 2 * (Len(c.p) + Len(c.q)) THEN {"program_not_executed"} ELSE {})
 
 \* ======================================================================== the two TLC passes
-Generate == JsonSerialize(IOEnv.CASES_FILE, SetToSeq(NameCases) \o SetToSeq(PermCases) \o SetToSeq(SharedCases) \o SetToSeq(UnionCases) \o SetToSeq(DupCases) \o SetToSeq(SameSourceCases) \o SetToSeq(SourceCases) \o SetToSeq(OperandCases) \o SetToSeq(TwiceCases) \o SetToSeq(SliceCases))
+Generate == JsonSerialize(IOEnv.CASES_FILE, SetToSeq(NameCases) \o SetToSeq(PermCases) \o SetToSeq(SharedCases) \o SetToSeq(UnionCases) \o SetToSeq(TwinCases) \o SetToSeq(DupCases) \o SetToSeq(SameSourceCases) \o SetToSeq(SourceCases) \o SetToSeq(OperandCases) \o SetToSeq(TwiceCases) \o SetToSeq(SliceCases))
 \* names are also compared ACROSS cases: G = every node description of the whole run, Amb = names with two computations
 Judge ==
   LET cs == JsonDeserialize(IOEnv.CASES_FILE)
       rs == JsonDeserialize(IOEnv.RESULTS_FILE)
       ok == {i \in DOMAIN rs : "error" \notin DOMAIN rs[i]}
-      DS == [i \in ok |-> Dens(rs[i].nodes)]
-      G == UNION {DS[i] : i \in ok}
-      Amb == {n.name : n \in {n \in G : \E m \in G : m.name = n.name /\ m.term # n.term}}
+      G == UNION {Light(rs[i].nodes) : i \in ok}
+      Amb == {a[1] : a \in {a \in G : \E b \in G : a[1] = b[1] /\ a[2] # b[2]}}
+      DA == [i \in ok |-> DensOf(rs[i].nodes, Amb)]
+      GA == UNION {DA[i] : i \in ok}
   IN \A i \in DOMAIN cs :
        LET bad == IF i \notin ok THEN {"harness_error"}
                   ELSE Post(cs[i], rs[i])
                        \cup {"NameInjective:" \o CollisionKind(x[1], x[2]) :
-                               x \in {y \in {a \in DS[i] : a.name \in Amb} \X G : y[1].name = y[2].name /\ y[1].term # y[2].term}}
+                               x \in {y \in DA[i] \X GA : y[1].name = y[2].name /\ y[1].term # y[2].term}}
        IN bad = {} \/ PrintT("B|" \o ToString(i) \o "|" \o ToString(bad))
 =============================================================================
